@@ -1,0 +1,11 @@
+//go:build verif
+
+package multisigsc
+
+// VerifMsgpNew lists constructors of the unexported types of this package that have msgp
+// generated code, for the serialization check (C08). No logic.
+var VerifMsgpNew = map[string]func() interface{}{
+	"expirationQueue": func() interface{} { return new(expirationQueue) },
+	"proposal": func() interface{} { return new(proposal) },
+	"proposalRef": func() interface{} { return new(proposalRef) },
+}
